@@ -116,6 +116,9 @@ impl Monitor for C01 {
         let input = v1_case(stream, idx, seed);
         spec::sib::run_v1(&input, idx, 4, |input| judge(input, rec));
     }
+    fn cold_start(&self, rec: &mut Recorder) {
+        cold_start_equal(rec, "the four v1 entry points", &cold_inputs(), &|x| format!("{:?} {:?}", v1_bytes(x), std::str::from_utf8(x).ok().map(|s| (v1_str(s), v1_fromstr_header(s), v1_fromstr_addr(s)))));
+    }
     fn floor(&self, tier: Tier) -> Vec<&'static str> {
         if tier == Tier::Miri {
             return vec!["oracle:accept-tcp4", "oracle:accept-tcp6", "oracle:accept-unknown"];
